@@ -385,7 +385,7 @@ def prop_C18(ctx):
         + gen.grid_trait_instrs() + gen.composites(ctx.rng, ctx.sz['comp']) + gen.soup(ctx.rng, ctx.sz['soup']) + attr_shape_cases() \
         + gen.c03_cases(ctx.rng, 1500 if q else 15000) + gen.c03_hinted_cases(ctx.rng, 500 if q else 5000) + gen.odd_member_cases(ctx.rng, 1500 if q else 15000) \
         + gen.c11_cases(ctx.rng, 500 if q else 5000)
-    items += gen.trailing_commas(items, ctx.rng, 1500 if q else 15000)
+    items += gen.trailing_commas(items, ctx.rng, 1500 if q else 15000) + gen.argless_under_switch(items, ctx.rng, 1000 if q else 10000)
     gen.TREE_TYPE_FORMS = saved_forms
     named = []
     for i, it in enumerate(items):
@@ -524,6 +524,7 @@ def prop_C20(ctx):
     recs += ctx.run_set('params', gen.c08_cases(ctx.rng, 1200 * k20), obs_C20)
     recs += ctx.run_set('generics', gen.c11_cases(ctx.rng, 800 * k20), obs_C20)
     recs += ctx.run_set('flavours', gen.c07_cases(ctx.rng, 600 * k20) + gen.c07_parent_cases(ctx.rng, 300 * k20), obs_C20)
+    recs += ctx.run_set('members', gen.c01_cases(ctx.rng, 800 * k20), obs_C20)      # as_type casts between float and integer types among them
     n = 0
     for r in recs:
         if vlib.outcome_class(r['out']) != 'ok':
